@@ -162,3 +162,23 @@ package router
 //@             && ptrOf(rc.Response.Msg.Additionals[len(rc.Response.Msg.Additionals)-1], dnsmsg.RawResource).Class == dnsmsg.Class(1200)
 //@   loop 1:
 //@     invariant !clientSupportEDNS0 && forall(k, 0, rangeindex+1, !isOPT(m.Additionals[k]))
+
+// ---- server_utils.go / router.go: packing responses ------------------------------------------------
+
+//@ func packResp(m *dnsmsg.Msg, compression bool, size int) (b pool.Buffer, err error)
+//@   props C09 C01
+//@   requires m != nil && wfMsg(m) && smallMsg(m)
+//@   modifies m.Additionals, obj(m.Additionals)
+//@   ensures wfMsg(m)
+//@   ensures err == nil ==> b != nil && fresh(b) && len(b) >= 12
+//@   ensures err != nil ==> b == nil
+//@   ensures [C09:udp-limit] err == nil && size > 0 && old(optSmall(m)) ==> len(b) <= (size < 512 ? 512 : (size > 65535 ? 65535 : size))
+
+//@ func packRespTCP(m *dnsmsg.Msg, compression bool) (b pool.Buffer, err error)
+//@   props C09 C13 C01
+//@   requires m != nil && wfMsg(m) && smallMsg(m)
+//@   modifies m.Additionals, obj(m.Additionals)
+//@   ensures wfMsg(m)
+//@   ensures err == nil ==> b != nil && fresh(b) && len(b) >= 14
+//@   ensures err != nil ==> b == nil
+//@   ensures [C13:frame-prefix] err == nil && old(optSmall(m)) ==> len(b) - 2 <= 65535 && BE16(b, 0) == uint16(len(b) - 2)
